@@ -240,7 +240,13 @@ def run_shard(shard) -> Result:
         res.distinct_extra += len(seen)
         res.sample({"random_example": str(x), "encode_varint": bp.encode_varint(x).hex()})
     elif k == "rejects":
-        for x in [-(1 << 63) - 1, -(1 << 63) - 2, -(1 << 64), -(1 << 64) - 1, -(1 << 70), -(10**30)]:
+        lows = [-(1 << 63) - 1, -(1 << 63) - 2, -(1 << 64), -(1 << 64) - 1, -(1 << 70), -(10**30),
+                -(1 << 64) - (1 << 63), -(1 << 64) - (1 << 63) - 1, -(1 << 100) - 1, -(1 << 65) + 1, -(1 << 127), -(1 << 128) - 1]
+        rrng = random.Random("c16-rejects")
+        for bits in range(64, 200, 3):
+            for _ in range(4):
+                lows.append(-(1 << 63) - 1 - rrng.getrandbits(bits))  # every bit pattern in the low 64 bits
+        for x in lows:
             _check_reject_low(bp, res, x)
             res.case(f"low:{x}")
         # the minimum itself must be accepted
